@@ -8,6 +8,7 @@ names=${@:-$(ls seeded | grep '^C')}
 tmp=$(mktemp)
 for n in $names; do
   p=${n:0:3}
+  grep -q '"status": "neutralised"' /verif/seeded/$n/meta.json 2>/dev/null && { echo "$n: neutralised by a repair, skipped"; continue; }
   git -C /repo apply /verif/seeded/$n/patch.diff || { echo "$n: patch does not apply"; continue; }
   for s in 0 1; do
     out=$(VERIF_SEED=$s ./check $p 2>&1); rc=$?
